@@ -339,6 +339,55 @@ Fixpoint acc_all (st : option stats) (calls : list (tensor K * Z)) : option stat
     end
   end.
 
+(** ** Specification vocabulary (used by the theorems) *)
+Definition vadd (a b : list K) : list K := zipw (nadd N) a b.
+Definition sq (x : K) : K := nmul N x x.
+
+(* accumulate a list of feature vectors one at a time *)
+Fixpoint acc_vectors (st : option stats) (vs : list (list K)) : res (option stats) :=
+  match vs with
+  | [] => Ok st
+  | v :: rest =>
+    match acc_vector st v with
+    | Ok st' => acc_vectors st' rest
+    | Err e => Err e
+    end
+  end.
+
+(* the statistics s plus count / sums / sums of squares of the vectors vs (all of length F) *)
+Definition add_vectors (s : stats) (F : nat) (vs : list (list K)) : stats :=
+  mkS (vadd (s_sum s) (vsum F vs))
+      (nadd N (s_cnt s) (nofZ N (Z.of_nat (length vs))))
+      (vadd (s_sq s) (vsum F (map (map sq) vs)))
+      (s_spare s).
+
+Definition start_stats (st : option stats) (F : nat) : stats :=
+  match st with Some s => s | None => zero_stats (Z.of_nat F + 1) end.
+
+(* the statistics matrix, if any, has F + 1 columns *)
+Definition fits (st : option stats) (F : nat) : Prop :=
+  match st with None => True | Some s => length (s_sum s) = F /\ length (s_sq s) = F end.
+
+(* an accumulate / apply argument the property speaks about: a well-formed, non-empty
+   array of at least one dimension whose chosen axis exists and has length F *)
+Definition good_arg (F : nat) (t : tensor K) (axis : Z) : Prop :=
+  wf_tensor t /\ shape t <> [] /\ Forall (fun d => 0 < d) (shape t) /\
+  if takes_tensor_path (shape t)
+  then (- Z.of_nat (length (shape t)) <= axis < Z.of_nat (length (shape t))) /\
+       nth (axis_pos (shape t) axis) (shape t) 0 = Z.of_nat F
+  else length (data t) = F.
+
+(* coefficient f of each vector; exact mean and variance of coefficient f over vectors vs *)
+Definition comp (f : nat) (vs : list (list K)) : list K := map (fun v => nth f v (n0 N)) vs.
+Definition col_mean (vs : list (list K)) (f : nat) : K :=
+  ndiv N (ksum (comp f vs)) (nofZ N (Z.of_nat (length vs))).
+Definition col_var (vs : list (list K)) (f : nat) : K :=
+  nsub N (ndiv N (ksum (map sq (comp f vs))) (nofZ N (Z.of_nat (length vs)))) (sq (col_mean vs f)).
+(* the variance the transform divides by: None = no variance normalisation;
+   a variance within 1e-8 of zero is replaced by 1 *)
+Definition veff (norm_var : bool) (v : K) : option K :=
+  if norm_var then Some (if nisclose N v (n0 N) then n1 N else v) else None.
+
 (* the feature vectors one accumulate call contributes *)
 Definition vectors_of_call (c : tensor K * Z) : list (list K) :=
   let '(t, axis) := c in
@@ -401,5 +450,8 @@ Definition show_obs (o : @obs (Qc * Qc)) : shown :=
   end.
 
 (* a tensor of the harness: integer numerators over one common power-of-two denominator *)
-Definition mk_tensor (sh : list Z) (den : positive) (nums : list Z) (f64 : bool) : tensor Qc :=
+Definition mk_tensor (sh : list Z) (den : positive) (nums : list Z) (f64 : bool) : tensor (T QcNum) :=
   mkT sh (map (fun z => qc_of z den) nums) f64.
+Definition AccQ : tensor (T QcNum) -> Z -> @op QcNum := @OpAcc QcNum.
+Definition AppQ : tensor (T QcNum) -> Z -> bool -> @op QcNum := @OpApp QcNum.
+Definition HaveQ : @op QcNum := @OpHave QcNum.
